@@ -984,3 +984,81 @@ Proof.
   - unfold racing_puts. repeat constructor; cbn; try lia; try discriminate; intros; discriminate.
   - vm_compute. repeat split; reflexivity.
 Qed.
+
+(** * Part D: a micro schedule in which no call is overtaken is a schedule of the window model *)
+Inductive cevent :=
+| CCall (tid : Z) (r : request) (idxs : list Z)      (* a whole call, its micro steps back to back *)
+| CWin (e : wevent).                                  (* anything the window model can do *)
+
+Definition cstep_m (cfg : config) (ms : mstate) (ce : cevent) : mstate :=
+  match ce with
+  | CCall tid r idxs => fst (mcall cfg tid r idxs ms)
+  | CWin e => fst (mstep cfg ms (MWin e))
+  end.
+Definition cstep_w (cfg : config) (ws : wstate) (ce : cevent) : wstate :=
+  match ce with
+  | CCall tid r idxs => fst (wstep cfg ws (WBase (ECall tid r idxs)))
+  | CWin e => fst (wstep cfg ws e)
+  end.
+
+(** the side conditions of [mcall_atomic], along the run *)
+Fixpoint adm_run (cfg : config) (ms : mstate) (ces : list cevent) : Prop :=
+  match ces with
+  | [] => True
+  | ce :: t =>
+      match ce with
+      | CCall tid r idxs => (forall k v w ttl rm, r <> RUpsert k v w ttl rm) /\ pool_admissible cfg r idxs (mbase ms)
+      | CWin _ => True
+      end /\ adm_run cfg (cstep_m cfg ms ce) t
+  end.
+
+Lemma with_base_eta : forall ws, with_base ws (base ws) = ws.
+Proof. intros [b u p]. reflexivity. Qed.
+
+Lemma call_blocked_noop : forall cfg tid r idxs s, amem tid (blocked s) = true -> call cfg tid r idxs s = (s, [6]).
+Proof. intros cfg tid r idxs s H. unfold call. rewrite H. reflexivity. Qed.
+
+Lemma cstep_agree : forall cfg ms ce, cps ms = [] -> wdel ms = None ->
+  match ce with
+  | CCall tid r idxs => (forall k v w ttl rm, r <> RUpsert k v w ttl rm) /\ pool_admissible cfg r idxs (mbase ms)
+  | CWin _ => True
+  end ->
+  win (cstep_m cfg ms ce) = cstep_w cfg (win ms) ce /\ cps (cstep_m cfg ms ce) = [] /\ wdel (cstep_m cfg ms ce) = None.
+Proof.
+  intros cfg ms ce Hc Hw Hadm. destruct ce as [tid r idxs|e]; cbn [cstep_m cstep_w].
+  - destruct Hadm as (Hnu & Hpa).
+    destruct (caller_free ms tid) eqn:Hfree.
+    + rewrite (mcall_atomic cfg tid r idxs ms Hfree Hnu Hpa). cbn [fst].
+      destruct (caller_free_spec ms tid Hfree) as (_ & Hu & _).
+      rewrite wstep_base_eq. rewrite Hu. cbn [negb].
+      unfold mbase. destruct (step cfg (base (win ms)) (ECall tid r idxs)) as [s' ret] eqn:E.
+      cbn [step] in E. rewrite E. cbn [fst with_mbase win cps wdel]. auto.
+    + (* the caller is inside a window or parked: the call is not enabled, in either model *)
+      unfold mcall, menter. rewrite Hfree. cbn [negb]. rewrite mcall_steps_stop by reflexivity. cbn [fst].
+      unfold caller_free in Hfree. rewrite Hc in Hfree. cbn [amem alookup negb andb] in Hfree.
+      rewrite wstep_base_eq.
+      destruct (amem tid (ups (win ms))) eqn:Hu; cbn [negb andb] in *.
+      * auto.
+      * destruct (amem tid (blocked (mbase ms))) eqn:Hb; [|discriminate].
+        cbn [step]. unfold mbase in Hb. rewrite (call_blocked_noop cfg tid r idxs _ Hb).
+        rewrite with_base_eta. auto.
+  - cbn [mstep]. assert (He : mwin_enabled ms e = true).
+    { unfold mwin_enabled. rewrite Hc, Hw. destruct e as [[]| | | |]; reflexivity. }
+    rewrite He. destruct (wstep cfg (win ms) e) as [w' ret]. cbn [fst win cps wdel]. auto.
+Qed.
+
+(* STATEMENT: a micro schedule whose calls are not overtaken (each call's micro steps run back to back; in between, any
+   events of the window model) reaches exactly the states of the window model with those calls as atomic events; together
+   with [atomic_schedule_refines] (Window.v without overtaking = Model.v) every theorem about Model.v transfers *)
+Lemma micro_schedule_refines : forall cfg ces ms,
+  cps ms = [] -> wdel ms = None -> adm_run cfg ms ces ->
+  win (fold_left (cstep_m cfg) ces ms) = fold_left (cstep_w cfg) ces (win ms) /\
+  cps (fold_left (cstep_m cfg) ces ms) = [] /\ wdel (fold_left (cstep_m cfg) ces ms) = None.
+Proof.
+  intros cfg ces. induction ces as [|ce t IH]; intros ms Hc Hw Hadm; cbn [fold_left].
+  - auto.
+  - destruct Hadm as (Hce & Ht).
+    destruct (cstep_agree cfg ms ce Hc Hw Hce) as (E1 & E2 & E3).
+    destruct (IH (cstep_m cfg ms ce) E2 E3 Ht) as (F1 & F2 & F3).
+    rewrite F1, E1. auto.
+Qed.
